@@ -10,6 +10,22 @@ NOTE = ("trusted: clang 14 front end + CFG builder, cmake's compile database, th
         "The check decides the listed structural clauses only - see DESIGN.md section 5 'Not decided'.")
 
 CLAIMS = {
+    "C05": dict(
+        technique="type-level witnesses + ownership/typestate rules on the smart_stream CFGs + expression-shape rules for filters and fan-out",
+        text="Static: a statement object is move-only with unique_ptr members and a complete move constructor; the destructor emits once "
+             "under `if (r)`; rvalue operator<< hands ownership on, lvalue returns the same object; the filter is asked exactly once per "
+             "statement and formatter/sink are reachable only through ~smart_stream -> logger::log; and/or/not/severity/null filters have the "
+             "specified truth tables; the compile-time gate matrix holds for the compiled minima; sequence fan-out expands inside a braced "
+             "list over a full index sequence; the message is the buffer text unmodified; no static/thread-shared/asynchronous state. "
+             "Text equality for all streamed types is the library operator<<'s business (not decided).",
+        ref="5/C05"),
+    "C10": dict(
+        technique="exhaustive type-level matrix (static_assert per cell and minimum) + CFG dominance rules for lazy callables",
+        text="Static, exhaustive over (severity, compile-time minimum): decltype(logger::sev()) is the discarding stream iff sev < minimum "
+             "(expected values from the documented order, not from the enum); the discarding operator<< never touches its operand; in the "
+             "smart_stream overloads a streamed callable is invoked exactly once and only under `if (s)`; exactly one overload is viable for "
+             "callables and for plain values; the constructor consults will_log once on every path and creates the buffer only when accepted.",
+        ref="5/C10"),
     "C06": dict(
         technique="abstract interpretation (zones / difference-bound matrices) over the fixed_vector template pattern + CFG ordering rules",
         text="Static, all capacities / operation histories / element types: with the class invariant 0 <= size_ <= capacity_ assumed at "
